@@ -230,3 +230,35 @@ Theorem C05_stuck_means_published : forall pers blk fx caps fa cls,
   forall t, ComposeMeasure.publish_pending (Reg.thr (Compose.cg c) t) = false.
 Proof. exact ComposeMeasure.stuck_means_published. Qed.
 Print Assumptions C05_stuck_means_published.
+
+(** ** Round "proofs 4": "every blocking Publish returns" in the composition *)
+From WM Require GoChannel.ComposeTerm.
+(** ONE measure for the composed system: M = W * (registry measure) + sum of the instance measures
+    + number of sent-but-unacked publications, W = 6|T||X| + 2 (T = publication ids used so far,
+    X = subscriptions so far).  Every step of the composition that is neither the consumer's nor
+    an API call (and not a redundant GAllAcked) strictly decreases M; LRecv / LAck leave it
+    unchanged; a Nack raises it by at most 3|T||X|. *)
+Theorem C05_composed_step_decreases : forall pers blk fx caps fa cls T X,
+  let c := Compose.crun (Compose.cinit pers blk fx caps fa) cls in
+  (forall p, In p (used (Compose.cg c)) -> In p T) -> (forall x, In x (allsubs (Compose.cg c)) -> In x X) ->
+  forall cl c', ComposeTerm.counted c cl = true -> Compose.cstep c cl = Some c' ->
+  ComposeTerm.M T X c' < ComposeTerm.M T X c.
+Proof. exact ComposeTerm.composed_step_decreases. Qed.
+Print Assumptions C05_composed_step_decreases.
+
+(** Hence: from every reachable composed state c, along every run without new Publish / Subscribe /
+    cancel / Close calls, the number of executed steps other than the consumers' is at most
+    M c + 3|T||X| * (number of Nacks) - with a Nack budget the run is finite up to consumer steps,
+    any mode, blocking included; and a state in which nothing of the composition (consumers
+    included) is enabled and no writer is pending or holding has every Publish returned. *)
+Theorem C05_blocking_returns_composed : forall pers blk fx caps fa cls cls',
+  let c := Compose.crun (Compose.cinit pers blk fx caps fa) cls in
+  let T := used (Compose.cg c) in let X := allsubs (Compose.cg c) in
+  forallb (fun cl => negb (ComposeMeasure.env_call cl)) cls' = true ->
+  ComposeTerm.ccount c cls'
+    <= ComposeTerm.M T X c + ComposeTerm.budget T X * ComposeMeasure.count_exec ComposeMeasure.nack_step c cls'
+  /\ (writer (Compose.cg (Compose.crun c cls')) = None -> wpending (Compose.cg (Compose.crun c cls')) = [] ->
+      ~ ComposeLive.CProg (Compose.crun c cls') ->
+      forall t, ComposeMeasure.publish_pending (Reg.thr (Compose.cg (Compose.crun c cls')) t) = false).
+Proof. exact ComposeTerm.blocking_returns_composed. Qed.
+Print Assumptions C05_blocking_returns_composed.
